@@ -24,7 +24,11 @@ ORIENTS = ['N', 'S', 'E', 'W', 'FN', 'FS', 'FE', 'FW']
 VIA_OPTS = [('VIARULE', 'rule1'), ('CUTSIZE', (10, 12)), ('LAYERS', ('M1', 'V1', 'M2')), ('CUTSPACING', (5, 6)), ('ENCLOSURE', (1, 2, 3, 4)), ('ROWCOL', (2, 3)), ('PATTERN', '2_F0')]
 
 
-def render(ast, comments=False):
+LAYOUTS = ['plain', 'oneline', 'token_per_line', 'crlf', 'tabs']
+
+
+def render(ast, comments=False, layout='plain'):
+    """layout: the same statements on one line / one token per line / with CRLF line ends / with tabs for blanks"""
     o = []
     if comments: o.append('# generated DEF')
     o += ['VERSION 5.8 ;', 'DIVIDERCHAR "/" ;', 'BUSBITCHARS "[]" ;', f'DESIGN {ast["design"]} ;']
@@ -82,7 +86,12 @@ def render(ast, comments=False):
             o.append(s + ' ;')
         o.append(f'END {sec}')
     o.append('END DESIGN')
-    return '\n'.join(o) + '\n'
+    text = '\n'.join(o) + '\n'
+    if layout == 'oneline' and not comments: text = ' '.join(text.split()) + '\n'
+    elif layout == 'token_per_line' and not comments: text = '\n'.join(text.split()) + '\n'
+    elif layout == 'crlf': text = text.replace('\n', '\r\n')
+    elif layout == 'tabs': text = text.replace(' ', '\t')
+    return text
 
 
 def resolve(w):
@@ -108,7 +117,8 @@ def def_case(res, case):
     from kyupy import def_file
     ast = case['ast']
     res.evals += 1
-    text = render(ast, case.get('comments', False))
+    text = render(ast, case.get('comments', False), case.get('layout', 'plain'))
+    if case.get('layout'): res.count('layout_' + case['layout'])
     key = f'C20/{common.h64(text):016x}'
     case = dict(case, text=text)
     def bad(what, msg):
@@ -264,6 +274,8 @@ def run_task(task):
                         else: a.pop(s)
                     for comments in (False, True):
                         def_case(res, {'ast': a, 'comments': comments})
+                    for layout in LAYOUTS[1:]:
+                        def_case(res, {'ast': a, 'layout': layout, 'comments': layout in ('crlf', 'tabs')})
             a = copy_ast(diearea=[(0, 0), (0, 2000), (1000, 2000), (1000, 0)])
             def_case(res, {'ast': a})
             a = copy_ast(rows=BASE['rows'] + [{'name': 'row1', 'site': 'unit', 'x': 0, 'y': 100, 'orient': 'FS', 'nx': 1, 'ny': 7, 'sx': 0, 'sy': 50},
